@@ -389,6 +389,7 @@ def extract_function(fn):
     if fn.get("ctor"):
         # constructor: the mem-initializer list  ': a(x), b(y)'  between the signature and the body becomes 'self->a = x; self->b = y;'
         init = stripped[e:ob].strip()
+        init = re.sub(r"^noexcept(\s*\((?:[^()]|\((?:[^()]|\([^()]*\))*\))*\))?\s*", "", init)   # exception specification: not part of the mem-initializer list
         if init.startswith(":"):
             items, depth, cur = [], 0, ""
             for ch in init[1:]:
